@@ -724,8 +724,23 @@ func c11Check(o *vh.Oracle, r *vh.Result, c *c11Case, record bool) (bad bool, er
 			r.Fail("predicate", "swap/call-on-closed-store", fmt.Sprintf("calls reached closed member stores: %v (chain %s)", run.w.closedCalls, c.Top), c)
 		}
 	}
-	// the taps must be transparent: same results and member log without them
+	// the taps must be transparent: same results and member log without them.  The untapped chain is also the one
+	// with the real dynamic types at the top (a StoreRouter / Cache value instead of a pointer to a tap), so a panic
+	// that only the real types provoke shows here
 	if plain, prun, perr := c11RunImpl(c, false); perr == nil {
+		for k, res := range plain {
+			if strings.HasPrefix(res, "PANIC") && !strings.Contains(c.Impl, "PANIC") {
+				bad, c.predBad = true, true
+				if record {
+					class := "chain/panic"
+					if k < len(c.Ops) && c.Ops[k][0] == 'w' {
+						class = "swap/panic"
+					}
+					r.Fail("predicate", class, fmt.Sprintf("operation %d (%s) on the chain %s panicked: %s", k, c.Ops[k], c.Top, res), c)
+				}
+				return bad, nil
+			}
+		}
 		if joinOr(plain, "+") != c.Impl || joinOr(prun.w.log, ",") != c.ImplLog {
 			return bad, fmt.Errorf("taps are not transparent on case %s %v", c.Top, c.Ops)
 		}
@@ -1102,6 +1117,7 @@ func runC11(a vh.Args, o *vh.Oracle, r *vh.Result) error {
 	}
 	for k := 0; k < n; k++ {
 		c := c11GenCase(rng, r, k%4 == 3)
+		r.Running(c)
 		bad, err := c11Check(o, r, c, false)
 		if err != nil {
 			return err
